@@ -133,6 +133,9 @@ for r in RECL_ALL:
 # a thread exits (abandoning what it retired) while another thread is in the middle of a scan and a third one holds a guard (seed C17)
 for r in ["hp", "hpd", "he", "hed"]:
     _c17_quick.append(run("reclaim", "proto_" + r, c=2, opt={"ops": 0x22, "T": 3, "m": 1}, weight=1.0))
+# the same shape for the epoch based schemes (finding F-C01-3: orphans of a thread that exits while another thread advances the epoch)
+for r in ["ebr", "nebr", "debra", "gebr_lazy"]:
+    _c17_quick.append(run("reclaim", "proto_" + r, c=2, opt={"ops": 0x42, "T": 3, "m": 1}, weight=1.0))
 # backlog bound: scan threshold proportional to the hazard pointers / eras of the threads that are ALIVE (A = 1, K = 3): after the generations a lone
 # thread may accumulate at most A*K*(T+1)+B+1 = 10 unprotected retired nodes before the first one is destroyed (seed C17b: counter never decremented on exit)
 for r in ["hp_a1", "he_a1"]:
@@ -199,6 +202,8 @@ _c06_quick = [
     # k that is not a power of two (seed C06c: slot scan with a mask instead of a modulo reaches only some of the k slots)
     run("kfifo", "kb", c=0, r=1, opt={"T": 1, "m": 8, "k": 3, "segs": 3, "prefill": 0}, weight=0.5), run("kfifo", "kb", c=0, r=1, opt={"T": 1, "m": 8, "k": 5, "segs": 2, "prefill": 0}, weight=0.5),
     run("kfifo", "kb", c=0, r=2, opt={"T": 1, "m": 8, "k": 3, "segs": 2, "prefill": 0}, weight=0.5), run("kfifo", "kf_hp", c=0, r=1, opt={"T": 1, "m": 8, "k": 3, "prefill": 0}, weight=0.5),
+    # pusher | popper | popper (finding F-C06-3: committed() with a stale tail)
+    run("kfifo", "kb", c=2, r=1, opt={"k": 2, "segs": 2, "T": 3, "m": 1}, weight=3),
     # three segments, three threads x two operations: reaches known finding F-C06-4 (hole left by a withdrawn tentative insert)
     run("kfifo", "kb", c=2, opt={"k": 1, "segs": 3, "T": 3, "m": 2, "prefill": 0}, weight=3),
     run("kfifo", "kb_boundary", c=0, horizon=16000000, wall=240, opt={"segs": 65535, "fill": 65535, "ops": 70000}),
@@ -424,7 +429,9 @@ _c10_quick = [run("vy", "map_" + t, c=0, opt={"T": 1, "m": 3, "keys": 5, "cap": 
     [run("vy", "map_tt_i1_hp", c=1, opt={"keys": 2, "cap": 1, "ops": 0x7, "prefill": 1}), run("vy", "map_st_s1_hp", c=1, opt={"keys": 2, "cap": 128, "ops": 0x25, "prefill": 1}),
      run("vy", "map_tm_i1_hp", c=1, opt={"keys": 2, "cap": 1, "ops": 0x26, "prefill": 3}), run("vy", "map_tt_i1_ebr", c=1, opt={"keys": 2, "cap": 128, "ops": 0x16, "prefill": 1}),
      run("vy", "map_tt_i1_hp", c=1, opt={"m": 1, "keys": 5, "prefill": 31, "cap": 128, "ops": 0x27}, weight=2), run("vy", "map_st_s1_hp", c=1, opt={"m": 1, "keys": 5, "prefill": 31, "cap": 128, "ops": 0x27}, weight=2),
-     run("vy", "map_tn_i1_hp", c=1, opt={"m": 1, "keys": 4, "prefill": 7, "cap": 1, "ops": 0x7}, weight=2), run("vy", "map_tt_i1_stamp", c=1, opt={"m": 1, "keys": 2, "cap": 1, "ops": 0x7, "prefill": 1})]
+     run("vy", "map_tn_i1_hp", c=1, opt={"m": 1, "keys": 4, "prefill": 7, "cap": 1, "ops": 0x7}, weight=2), run("vy", "map_tt_i1_stamp", c=1, opt={"m": 1, "keys": 2, "cap": 1, "ops": 0x7, "prefill": 1}),
+     # non-trivial key storage modes under concurrency (finding F-C10-3: node dereferenced before the bucket version is validated)
+     run("vy", "map_sm_s1_hp", c=1, opt={"keys": 2, "cap": 1, "ops": 0x7, "prefill": 1}), run("vy", "map_sn_s1_hp", c=1, opt={"keys": 2, "cap": 1, "ops": 0x7, "prefill": 1})]
 _c10_thorough = [run("vy", "map_" + t, c=0, opt={"T": 1, "m": 4, "keys": 5, "cap": 128, "prefill": 15, "ops": 0x3f}, weight=2) for t in _vy_modes if "stamp" not in t] + \
     [run("vy", "map_" + t, c=0, opt={"T": 1, "m": 4, "keys": 6, "cap": 1, "prefill": 7, "ops": 0x33}, weight=1) for t in ["tt_i1_hp", "tn_i1_hp", "st_s1_hp", "sn_s1_hp", "tm_i1_hp", "sm_s1_hp"]] + \
     [run("vy", "map_" + t, c=1, opt={"keys": 2, "cap": 1, "ops": 0x27}, weight=2) for t in _vy_modes] + \
@@ -571,6 +578,7 @@ _c03_quick = \
      _w("queues", "ms_hp", variant="tsanv"), _w("queues", "ram_e1p1_ebr", variant="tsanv"), _w("queues", "nik_e1p1_hp", variant="tsanv"),
      _w("reclaim", "proto_hp", variant="tsanv", opt={"ops": 0x62}), _w("reclaim", "proto_ebr", variant="tsanv", opt={"ops": 0x62}), _w("reclaim", "proto_stamp", c=0, variant="tsanv", opt={"ops": 0x62}),
      run("queues", "ms_hp", c=2, variant="tsanv"), run("reclaim", "proto_qsbr", c=1, variant="tsanv", opt={"ops": 0xee})] + \
+    [_w("queues", "nik_e1p1_ebr", c=2, d=1, weight=2)] + \
     [run("queues", t, c=1, s=1, weight=0.5) for t in ["ms_hp", "nik_e1p1_ebr", "ram_e1p1_hp"]] + \
     [run("bounded", "vyukov", c=1, s=1, opt={"cap": 2}, weight=0.5), run("bounded", "nikolaev", c=1, s=1, opt={"cap": 2}, weight=0.5),
      run("hm", "set_hp", c=1, s=1, opt={"ops": 0x3, "prefill": 1}, weight=1), run("reclaim", "proto_lfrc", c=1, s=1, opt={"ops": 0x62}, weight=0.5),
